@@ -19,7 +19,7 @@
    cancelled; serve remembered wants when the block arrives".
    Channels are FIFO per direction and peer.
 
-   The four Fix* constants select, per mechanism, the as-built behaviour (FALSE) or the repaired
+   The Fix* constants select, per mechanism, the as-built behaviour (FALSE) or the repaired
    one (TRUE); see notes/C37.md.  The property (invariants of BitswapNet under the mapping at the
    end, Cleanup at quiescence, and liveness under weak fairness) is checked for the repaired
    design; the as-built configurations are kept as controls that MUST fail. *)
@@ -34,7 +34,7 @@ CONSTANTS Peer,        \* neighbours of the requester
           Small,       \* keys whose block is small: a want-have is answered with the block itself
           Has0,        \* [Peer -> SUBSET Key] initial placement
           Adds,        \* set of <<node, key>> that may be added later; node 0 = the requester itself
-          FixA, FixC, FixD, FixE, FixB
+          FixA, FixC, FixD, FixE, FixB, FixG
 
 Sess == {RSess[r] : r \in Req}
 None == 0
@@ -44,10 +44,12 @@ VARIABLES has, ledger, c2p, p2c,
           sim, sst, sdown, sq, sw, calls,
           wq, swt, sentTo, speers, bpm,
           bc, pwb, pwh,
+          pcl, pcw,    \* [Sess -> SUBSET Key] CANCELs decided by the interest manager (first critical section) that the
+                       \* session loop / the want sender still has to hand to the peer manager (second one)
           added
 
 vars == <<has, ledger, c2p, p2c, rst, wasCanc, sub, pipe, got, larr, sim, sst, sdown, sq, sw, calls,
-          wq, swt, sentTo, speers, bpm, bc, pwb, pwh, added>>
+          wq, swt, sentTo, speers, bpm, bc, pwb, pwh, pcl, pcw, added>>
 
 Range(s) == {s[i] : i \in 1..Len(s)}
 ReqsOf(s) == {r \in Req : RSess[r] = s}
@@ -68,6 +70,7 @@ Init == /\ has = Has0
         /\ speers = [s \in Sess |-> {}]
         /\ bpm = [p \in Peer |-> [k \in Key |-> "U"]]
         /\ bc = {} /\ pwb = [p \in Peer |-> {}] /\ pwh = [p \in Peer |-> {}]
+        /\ pcl = [s \in Sess |-> {}] /\ pcw = [s \in Sess |-> {}]
         /\ added = {}
 
 -----------------------------------------------------------------------------
@@ -93,12 +96,20 @@ SendWants(pw, p, wb, wh) ==
       [pw[3] EXCEPT ![p] = (@ \ nb) \cup nh],
       [pw[4] EXCEPT ![p] = @ \o Msgs("wb", nb) \o Msgs("whd", nh)]>>
 
-\* SendCancels(ks)
+\* SendCancels(ks).  The per-peer MessageQueue coalesces: a want that has not left the queue yet is simply dropped
+\* by the cancel (and no CANCEL is sent for it); c2p[p] stands for that queue plus the wire, so wants for the
+\* cancelled keys that the server has not consumed yet are removed from it.
+Unsent(ch, ks) == {i \in 1..Len(ch) : ch[i].t \in {"wh", "whd", "wb"} /\ ch[i].k \in ks}
+Drop(ch, idx) == LET RECURSIVE F(_)
+                     F(i) == IF i > Len(ch) THEN <<>> ELSE (IF i \in idx THEN <<>> ELSE <<ch[i]>>) \o F(i + 1)
+                 IN F(1)
 SendCancels(pw, ks) ==
     <<pw[1] \ ks,
       [p \in Peer |-> pw[2][p] \ ks],
       [p \in Peer |-> pw[3][p] \ ks],
-      [p \in Peer |-> pw[4][p] \o Msgs("cancel", {k \in ks : k \in pw[1] \/ k \in pw[2][p] \cup pw[3][p]})]>>
+      [p \in Peer |-> LET ch == pw[4][p]  gone == {ch[i].k : i \in Unsent(ch, ks)} IN
+           Drop(ch, Unsent(ch, ks)) \o
+           Msgs("cancel", {k \in ks \ gone : k \in pw[1] \/ k \in pw[2][p] \cup pw[3][p]})]>>
 
 SetPW(pw) == bc' = pw[1] /\ pwb' = pw[2] /\ pwh' = pw[3] /\ c2p' = pw[4]
 Wantlist == bc \cup UNION {pwb[p] \cup pwh[p] : p \in Peer}
@@ -106,6 +117,11 @@ Wantlist == bc \cup UNION {pwb[p] \cup pwh[p] : p \in Peer}
 \* SessionManager.CancelSessionWants(s, ks) / RemoveSession: withdraw interest, cancel what nobody wants
 SimRemove(m, s, ks) == [k \in Key |-> IF k \in ks THEN m[k] \ {s} ELSE m[k]]
 Orphans(m, s, ks) == {k \in ks : s \in m[k] /\ m[k] = {s}}
+
+\* cancelWants(ks) by goroutine g ("l" = session loop, "w" = want sender): as built the keys were selected in the
+\* interest manager's critical section and reach the peer manager in a later step (Flush); repaired (FixG): at once
+CancelNow(pw, ks) == IF FixG THEN SendCancels(pw, ks) ELSE pw
+Owed(old, ks) == IF FixG THEN old ELSE old \cup ks
 
 -----------------------------------------------------------------------------
 (* caller side *)
@@ -119,14 +135,14 @@ Issue(r) ==
     /\ sq' = IF sst'[s] = "run" /\ ~sdown[s]                          \* want(): select on s.incoming / ctx
              THEN [sq EXCEPT ![s] = Append(@, [t |-> "want", ks |-> RKeys[r], call |-> r])] ELSE sq
     /\ UNCHANGED <<has, ledger, c2p, p2c, wasCanc, pipe, got, larr, sim, sdown, sw, calls, wq, swt, sentTo,
-                   speers, bpm, bc, pwb, pwh, added>>
+                   speers, bpm, bc, pwb, pwh, pcl, pcw, added>>
 
 UserRecv(r) ==
     /\ rst[r] \in {"run", "canc"} /\ pipe[r] # <<>>
     /\ got' = [got EXCEPT ![r] = Append(@, Head(pipe[r]))]
     /\ pipe' = [pipe EXCEPT ![r] = Tail(@)]
     /\ UNCHANGED <<has, ledger, c2p, p2c, rst, wasCanc, sub, larr, sim, sst, sdown, sq, sw, calls, wq, swt,
-                   sentTo, speers, bpm, bc, pwb, pwh, added>>
+                   sentTo, speers, bpm, bc, pwb, pwh, pcl, pcw, added>>
 
 EndTemp(s) == [sdown EXCEPT ![s] = IF s \in Temp THEN TRUE ELSE @]
 
@@ -141,13 +157,13 @@ Complete(r) ==
     /\ sq' = IF FixC /\ sst[s] = "run" /\ ~sdown[s]
              THEN [sq EXCEPT ![s] = Append(@, [t |-> "cancel", ks |-> RKeys[r], call |-> r])] ELSE sq
     /\ UNCHANGED <<has, ledger, c2p, p2c, wasCanc, sub, pipe, got, larr, sim, sst, sw, calls, wq, swt, sentTo,
-                   speers, bpm, bc, pwb, pwh, added>>
+                   speers, bpm, bc, pwb, pwh, pcl, pcw, added>>
 
 Cancel(r) ==
     /\ rst[r] = "run"
     /\ rst' = [rst EXCEPT ![r] = "canc"] /\ wasCanc' = [wasCanc EXCEPT ![r] = TRUE]
     /\ UNCHANGED <<has, ledger, c2p, p2c, sub, pipe, got, larr, sim, sst, sdown, sq, sw, calls, wq, swt, sentTo,
-                   speers, bpm, bc, pwb, pwh, added>>
+                   speers, bpm, bc, pwb, pwh, pcl, pcw, added>>
 
 \* handleIncoming sees ctx.Done: close(out), then cfun(remaining)
 GetterExit(r) ==
@@ -160,13 +176,13 @@ GetterExit(r) ==
              THEN [sq EXCEPT ![s] = Append(@, [t |-> "cancel", ks |-> IF FixC THEN RKeys[r] ELSE remaining, call |-> r])]
              ELSE sq
     /\ UNCHANGED <<has, ledger, c2p, p2c, wasCanc, got, larr, sim, sst, sw, calls, wq, swt, sentTo, speers, bpm,
-                   bc, pwb, pwh, added>>
+                   bc, pwb, pwh, pcl, pcw, added>>
 
 -----------------------------------------------------------------------------
 (* session loop *)
 SHead(s) == Head(sq[s])
 SPop(s) == [sq EXCEPT ![s] = Tail(@)]
-Running(s) == sst[s] = "run"
+Running(s) == sst[s] = "run" /\ pcl[s] = {}      \* the loop is inside cancelWants otherwise
 
 SWant(s) ==
     /\ Running(s) /\ sq[s] # <<>> /\ SHead(s).t = "want"
@@ -177,7 +193,7 @@ SWant(s) ==
        /\ wq' = [wq EXCEPT ![s] = Append(@, [t |-> "add", ks |-> ks, from |-> None])]
        /\ SetPW(IF speers[s] = {} THEN Broadcast(PW, ks) ELSE PW)
     /\ sq' = SPop(s)
-    /\ UNCHANGED <<has, ledger, p2c, rst, wasCanc, sub, pipe, got, larr, sst, sdown, swt, sentTo, speers, bpm, added>>
+    /\ UNCHANGED <<has, ledger, p2c, rst, wasCanc, sub, pipe, got, larr, sst, sdown, swt, sentTo, speers, bpm, pcl, pcw, added>>
 
 \* keys a cancelled call may really withdraw
 Release(s, call, ks) == IF FixA THEN {k \in ks : calls[s][k] = {call}} ELSE ks
@@ -194,7 +210,7 @@ SCancel(s) ==
        /\ wq' = IF ks = {} THEN wq ELSE [wq EXCEPT ![s] = Append(@, [t |-> "cancel", ks |-> ks, from |-> None])]
     /\ sq' = SPop(s)
     /\ UNCHANGED <<has, ledger, c2p, p2c, rst, wasCanc, sub, pipe, got, larr, sst, sdown, swt, sentTo, speers,
-                   bpm, bc, pwb, pwh, added>>
+                   bpm, bc, pwb, pwh, pcl, pcw, added>>
 
 SRecv(s) ==
     /\ Running(s) /\ sq[s] # <<>> /\ SHead(s).t = "recv"
@@ -205,17 +221,18 @@ SRecv(s) ==
        /\ IF FixB     \* repaired: CANCEL goes out only after the sender has forgotten the keys
           THEN /\ wq' = IF wanted = {} THEN wq ELSE [wq EXCEPT ![s] = Append(@, [t |-> "cancel", ks |-> wanted, from |-> None])]
                /\ UNCHANGED <<bc, pwb, pwh, c2p>>
-          ELSE /\ SetPW(SendCancels(PW, Orphans(sim, s, wanted)))
+          ELSE /\ SetPW(CancelNow(PW, Orphans(sim, s, wanted)))
                /\ wq' = wq
+       /\ pcl' = [pcl EXCEPT ![s] = IF FixB THEN @ ELSE Owed(@, Orphans(sim, s, wanted))]
     /\ sq' = SPop(s)
-    /\ UNCHANGED <<has, ledger, p2c, rst, wasCanc, sub, pipe, got, larr, sst, sdown, swt, sentTo, speers, bpm, added>>
+    /\ UNCHANGED <<has, ledger, p2c, rst, wasCanc, sub, pipe, got, larr, sst, sdown, swt, sentTo, speers, bpm, pcw, added>>
 
 SBcast(s) ==
     /\ Running(s) /\ sq[s] # <<>> /\ SHead(s).t = "bcast"
     /\ SetPW(Broadcast(PW, IF FixE THEN SHead(s).ks \cap sw[s] ELSE SHead(s).ks))
     /\ sq' = SPop(s)
     /\ UNCHANGED <<has, ledger, p2c, rst, wasCanc, sub, pipe, got, larr, sim, sst, sdown, sw, calls, wq, swt, sentTo,
-                   speers, bpm, added>>
+                   speers, bpm, pcl, pcw, added>>
 
 \* idle tick: re-broadcast the live wants (only modelled when it changes something)
 STick(s) ==
@@ -224,22 +241,22 @@ STick(s) ==
     /\ sq[s] = <<>> /\ wq[s] = <<>>
     /\ SetPW(Broadcast(PW, sw[s]))
     /\ UNCHANGED <<has, ledger, p2c, rst, wasCanc, sub, pipe, got, larr, sim, sst, sdown, sq, sw, calls, wq, swt,
-                   sentTo, speers, bpm, added>>
+                   sentTo, speers, bpm, pcl, pcw, added>>
 
 \* messagequeue.rebroadcastWantlist: every rebroadcastInterval (30 s) the queue of a peer sends its whole
 \* want-list again.  Only modelled when everything else is at rest and somebody is still waiting.
 AllQuiet == /\ \A q \in Peer : c2p[q] = <<>> /\ p2c[q] = <<>>
-            /\ \A s \in Sess : sq[s] = <<>> /\ wq[s] = <<>>
+            /\ \A s \in Sess : sq[s] = <<>> /\ wq[s] = <<>> /\ pcl[s] = {} /\ pcw[s] = {}
 MQRebroadcast(p) ==
     /\ AllQuiet /\ \E r \in Req : rst[r] = "run" /\ sub[r] # {}
     /\ bc \cup pwb[p] \cup pwh[p] # {}
     /\ c2p' = [c2p EXCEPT ![p] = Msgs("wb", pwb[p]) \o Msgs("whd", pwh[p] \ pwb[p]) \o Msgs("wh", bc \ (pwb[p] \cup pwh[p]))]
     /\ UNCHANGED <<has, ledger, p2c, rst, wasCanc, sub, pipe, got, larr, sim, sst, sdown, sq, sw, calls, wq, swt,
-                   sentTo, speers, bpm, bc, pwb, pwh, added>>
+                   sentTo, speers, bpm, bc, pwb, pwh, pcl, pcw, added>>
 
 \* ctx.Done: sws.Shutdown() (waits for the sender), then SessionManager.RemoveSession
 SShutdown(s) ==
-    /\ Running(s) /\ sdown[s]
+    /\ Running(s) /\ sdown[s] /\ pcw[s] = {}          \* sws.Shutdown() waits for the sender to finish its step
     /\ sst' = [sst EXCEPT ![s] = "down"]
     /\ sq' = [sq EXCEPT ![s] = <<>>] /\ wq' = [wq EXCEPT ![s] = <<>>]
     /\ LET mine == {k \in Key : s \in sim[k]}
@@ -247,8 +264,9 @@ SShutdown(s) ==
            owed == IF FixB THEN UNION {wq[s][i].ks : i \in {j \in 1..Len(wq[s]) : wq[s][j].t = "cancel"}} ELSE {}
            sim1 == SimRemove(sim, s, mine) IN
        /\ sim' = sim1
-       /\ SetPW(SendCancels(PW, Orphans(sim, s, mine) \cup {k \in owed : sim1[k] = {}}))
-    /\ UNCHANGED <<has, ledger, p2c, rst, wasCanc, sub, pipe, got, larr, sdown, sw, calls, swt, sentTo, speers, bpm, added>>
+       /\ SetPW(CancelNow(PW, Orphans(sim, s, mine) \cup {k \in owed : sim1[k] = {}}))
+       /\ pcl' = [pcl EXCEPT ![s] = Owed(@, Orphans(sim, s, mine) \cup {k \in owed : sim1[k] = {}})]
+    /\ UNCHANGED <<has, ledger, p2c, rst, wasCanc, sub, pipe, got, larr, sdown, sw, calls, swt, sentTo, speers, bpm, pcw, added>>
 
 -----------------------------------------------------------------------------
 (* session want sender *)
@@ -266,7 +284,7 @@ WHead(s) == Head(wq[s])
 
 \* one change at a time (onChange with a single collected change)
 WStep(s) ==
-    /\ Running(s) /\ wq[s] # <<>>
+    /\ sst[s] = "run" /\ wq[s] # <<>> /\ pcw[s] = {}
     /\ LET c == WHead(s)
            isUpd == c.t \in {"blk", "have", "dont"}
            ignored == isUpd /\ c.from = None /\ ~FixD          \* as built: update.from = "" is not an update
@@ -287,7 +305,7 @@ WStep(s) ==
            cks == IF c.t = "cancel" THEN c.ks ELSE {}
            sim1 == IF FixB THEN sim ELSE SimRemove(sim, s, cks)
            orph == IF FixB THEN {k \in cks : sim[k] = {}} ELSE Orphans(sim, s, cks)
-           pwC == SendCancels(PW, orph)
+           pwC == CancelNow(PW, orph)
            \* sendNextWants: one optimistic want-block per want, want-haves to the other session peers,
            \* and want-haves for every want to peers that just became available
            best == [k \in Key |-> IF k \in T1 /\ st0[k] = None /\ ps # {} THEN Best(ps, k) ELSE None]
@@ -298,11 +316,22 @@ WStep(s) ==
        /\ swt' = [swt EXCEPT ![s] = T1]
        /\ speers' = [speers EXCEPT ![s] = ps]
        /\ sim' = sim1
+       /\ pcw' = [pcw EXCEPT ![s] = Owed(@, orph)]
        /\ SetPW(res[1])
        /\ sentTo' = [sentTo EXCEPT ![s] = res[2]]
        /\ sq' = IF exh # {} THEN [sq EXCEPT ![s] = Append(@, [t |-> "bcast", ks |-> exh, call |-> None])] ELSE sq
     /\ wq' = [wq EXCEPT ![s] = Tail(@)]
-    /\ UNCHANGED <<has, ledger, p2c, rst, wasCanc, sub, pipe, got, larr, sst, sdown, sw, calls, bpm, added>>
+    /\ UNCHANGED <<has, ledger, p2c, rst, wasCanc, sub, pipe, got, larr, sst, sdown, sw, calls, bpm, pcl, added>>
+
+\* second critical section of cancelWants: PeerManager.SendCancels with the keys selected earlier
+FlushL(s) == /\ pcl[s] # {}
+             /\ SetPW(SendCancels(PW, pcl[s])) /\ pcl' = [pcl EXCEPT ![s] = {}]
+             /\ UNCHANGED <<has, ledger, p2c, rst, wasCanc, sub, pipe, got, larr, sim, sst, sdown, sq, sw, calls, wq, swt,
+                            sentTo, speers, bpm, pcw, added>>
+FlushW(s) == /\ pcw[s] # {}
+             /\ SetPW(SendCancels(PW, pcw[s])) /\ pcw' = [pcw EXCEPT ![s] = {}]
+             /\ UNCHANGED <<has, ledger, p2c, rst, wasCanc, sub, pipe, got, larr, sim, sst, sdown, sq, sw, calls, wq, swt,
+                            sentTo, speers, bpm, pcl, added>>
 
 -----------------------------------------------------------------------------
 (* the client receives a message / a local announcement *)
@@ -325,7 +354,7 @@ ClientRecv(p) ==
           ELSE UNCHANGED <<sub, pipe>>
     /\ p2c' = [p2c EXCEPT ![p] = Tail(@)]
     /\ UNCHANGED <<has, ledger, c2p, rst, wasCanc, got, larr, sim, sst, sdown, sw, calls, swt, sentTo, speers,
-                   bc, pwb, pwh, added>>
+                   bc, pwb, pwh, pcl, pcw, added>>
 
 \* Put + NotifyNewBlocks on the requester itself
 LocalAdd(k) ==
@@ -335,7 +364,7 @@ LocalAdd(k) ==
     /\ sub' = Publish(k, sub, pipe)[1] /\ pipe' = Publish(k, sub, pipe)[2]     \* published unconditionally
     /\ larr' = [r \in Req |-> IF rst[r] \in {"run", "canc"} THEN larr[r] \cup {k} ELSE larr[r]]
     /\ UNCHANGED <<has, ledger, c2p, p2c, rst, wasCanc, got, sim, sst, sdown, sw, calls, swt, sentTo, speers, bpm,
-                   bc, pwb, pwh>>
+                   bc, pwb, pwh, pcl, pcw>>
 
 -----------------------------------------------------------------------------
 (* servers *)
@@ -355,7 +384,7 @@ ServerRecv(p) ==
                      /\ IF m.t = "whd" THEN Reply(p, "dont", k) ELSE UNCHANGED p2c
     /\ c2p' = [c2p EXCEPT ![p] = Tail(@)]
     /\ UNCHANGED <<has, rst, wasCanc, sub, pipe, got, larr, sim, sst, sdown, sq, sw, calls, wq, swt, sentTo, speers,
-                   bpm, bc, pwb, pwh, added>>
+                   bpm, bc, pwb, pwh, pcl, pcw, added>>
 
 ServerAdd(p, k) ==
     /\ <<p, k>> \in Adds \ added
@@ -366,11 +395,12 @@ ServerAdd(p, k) ==
        ELSE IF ledger[p][k] = "have" THEN Reply(p, "have", k) /\ UNCHANGED ledger
        ELSE UNCHANGED <<p2c, ledger>>
     /\ UNCHANGED <<c2p, rst, wasCanc, sub, pipe, got, larr, sim, sst, sdown, sq, sw, calls, wq, swt, sentTo, speers,
-                   bpm, bc, pwb, pwh>>
+                   bpm, bc, pwb, pwh, pcl, pcw>>
 
 -----------------------------------------------------------------------------
 Internal == \/ \E r \in Req : UserRecv(r) \/ Complete(r) \/ GetterExit(r)
             \/ \E s \in Sess : SWant(s) \/ SCancel(s) \/ SRecv(s) \/ SBcast(s) \/ STick(s) \/ SShutdown(s) \/ WStep(s)
+                               \/ FlushL(s) \/ FlushW(s)
             \/ \E p \in Peer : ClientRecv(p) \/ ServerRecv(p) \/ MQRebroadcast(p)
 Env == \/ \E r \in Req : Issue(r) \/ Cancel(r)
        \/ \E k \in Key : LocalAdd(k)
@@ -398,6 +428,7 @@ ClosedComplete == \A r \in Req : (rst[r] = "closed" /\ ~wasCanc[r]) => RKeys[r] 
 \* nothing in flight, nothing queued, no session waiting to shut down
 Quiescent == /\ \A p \in Peer : c2p[p] = <<>> /\ p2c[p] = <<>>
              /\ \A s \in Sess : sst[s] = "run" => (sq[s] = <<>> /\ wq[s] = <<>> /\ ~sdown[s])
+             /\ \A s \in Sess : pcl[s] = {} /\ pcw[s] = {}
              /\ \A r \in Req : rst[r] # "canc" /\ pipe[r] = <<>> /\ ~(rst[r] = "run" /\ sub[r] = {})
 Cleanup == Quiescent => Wantlist \subseteq LiveWanted
 
